@@ -137,7 +137,7 @@ Process(t) ==
                                            ![cr.stream].got = Append(@, key),
                                            ![cr.stream].completes = IF complete THEN @ + 1 ELSE @]
              /\ conn' = [conn EXCEPT ![c].closed = closed2, ![c].completed = (cr.completed \/ complete)]
-             /\ IF complete /\ cr.key \in DOMAIN conns
+             /\ IF complete /\ cr.key \in DOMAIN conns /\ conns[cr.key] = c     \* remove: only the object registered under the key
                 THEN conns' = [x \in DOMAIN conns \ {cr.key} |-> conns[x]] /\ free' = Append(free, c)
                 ELSE UNCHANGED <<conns, free>>
              /\ pi' = [pi EXCEPT ![t] = @ + 1] /\ pc' = [pc EXCEPT ![t] = "start"]
